@@ -292,7 +292,7 @@ def run(out):
     for script in scripts:
         for n in (1, 2, 3):
             for ops in itertools.product(range(len(OPS)), repeat=n):
-                if n == 3 and rng.random() > (0.12 if out.tier == 'quick' else 0.6):
+                if n == 3 and rng.random() > (0.12 if out.tier == 'quick' else 1.0):
                     continue
                 for ar, echo in ((0, 0), (1, 0), (0, 1)):
                     if (ar, echo) != (0, 0) and rng.random() > 0.25:
@@ -303,7 +303,7 @@ def run(out):
                     for o in ops:
                         c += OPS[o]
                     cases.append(c)
-    for _ in range(3000 if out.tier == 'quick' else 30000):
+    for _ in range(3000 if out.tier == 'quick' else 300000):
         script = [rng.choice(ACTIONS()) for _ in range(rng.randrange(0, 6))]
         ops = [rng.choice(OPS) for _ in range(rng.randrange(1, 26 if out.tier == 'thorough' else 10))]
         faults = [int(rng.random() < 0.3) for _ in range(rng.randrange(0, 4))] if rng.random() < 0.4 else []
@@ -330,7 +330,7 @@ def run(out):
             for ops in ([5, 5], [6, 9, 5], [8, 5, 5], [0, 3, 5], [0, 3, 0, 4, 7, 5]):
                 cases.append([ar, 0, FUEL, len(faults)] + faults + [0] + ops)
     multis = []
-    for _ in range(400 if out.tier == 'quick' else 4000):
+    for _ in range(400 if out.tier == 'quick' else 40000):
         ns = rng.randrange(0, 4)
         c = [4, rng.choice([0, 1]), ns]
         for _ in range(ns):
